@@ -148,8 +148,8 @@ class PusTmSecondaryHeader:
                 f"found where PUS C {PusVersion.PUS_C} was expected"
             )
         secondary_header.spacecraft_time_ref = data[current_idx] & 0x0F
-        if secondary_header.header_size > len(data):
-            raise BytesTooShortError(secondary_header.header_size, len(data))
+        if cls.MIN_LEN + timestamp_len > len(data):
+            raise BytesTooShortError(cls.MIN_LEN + timestamp_len, len(data))
         current_idx += 1
         secondary_header.service = data[current_idx]
         current_idx += 1
@@ -317,7 +317,7 @@ class PusTm(AbstractPusTm):
         )
         if (
             expected_packet_len
-            < pus_tm.pus_tm_sec_header.header_size + SPACE_PACKET_HEADER_SIZE
+            < pus_tm.pus_tm_sec_header.header_size + SPACE_PACKET_HEADER_SIZE + 2
         ):
             raise ValueError("passed packet too short")
         pus_tm._source_data = data[
